@@ -7,7 +7,13 @@
 From VF Require Import WriterQueue.
 From Coq Require Import Lia.
 
-Fixpoint interleave (ws : list nat) (cs : list nat) : list ev :=
+Section P.
+Context {A : Type}.
+Notation ev := (ev A).
+Notation wq := (wq A).
+Notation qop := (qop A).
+
+Fixpoint interleave (ws : list A) (cs : list nat) : list ev :=
   match cs with
   | [] => map EW ws
   | c :: rest => map EW (firstn c ws) ++ ES :: interleave (skipn c ws) rest
@@ -49,7 +55,7 @@ Proof.
     rewrite IH by (rewrite skipn_length; lia). rewrite <- app_assoc. reflexivity.
 Qed.
 
-Lemma my_skipn_skipn {A} : forall b a (l : list A), skipn a (skipn b l) = skipn (b + a) l.
+Lemma my_skipn_skipn : forall b a (l : list A), skipn a (skipn b l) = skipn (b + a) l.
 Proof.
   induction b as [|b IH]; intros a l; [reflexivity|].
   destruct l as [|x l]; [cbn [skipn]; rewrite skipn_nil; reflexivity|]. cbn [skipn Nat.add]. apply IH.
@@ -164,16 +170,18 @@ Proof.
 Qed.
 
 (* the goroutine never waits while something is queued, and every command makes progress: the queue drains *)
-Lemma next_none_iff B s : wq_next B s = None <-> q_sched s = [] /\ q_fsync s = [].
+Lemma next_none_iff B (s : wq) : wq_next B s = None <-> q_sched s = [] /\ q_fsync s = [].
 Proof.
   unfold wq_next. destruct (q_sched s) as [|w ws]; destruct (q_fsync s) as [|c rest]; split; intros H;
     try discriminate; try (destruct H; discriminate); try (split; reflexivity); try reflexivity.
-  - destruct (c - q_published s <=? Nat.min B (length (@nil nat))); discriminate.
+  - destruct (c - q_published s <=? Nat.min B (length (@nil A))); discriminate.
   - destruct (c - q_published s <=? Nat.min B (length (w :: ws))); discriminate.
 Qed.
 
+End P.
+
 (* ---------- the late clamp (seeded change C01f) ---------- *)
-Fixpoint wq_run_late (s : wq) (ops : list qop) : wq * list ev * list ev :=
+Fixpoint wq_run_late (s : wq nat) (ops : list (qop nat)) : wq nat * list (ev nat) * list (ev nat) :=
   match ops with
   | [] => (s, [], [])
   | QW id :: rest => let '(s', out, inp) := wq_run_late (wq_schedule s id) rest in (s', out, EW id :: inp)
